@@ -189,6 +189,11 @@ func main() {
 		n *= 6
 	}
 	st := &stats{byMut: map[string]int{}}
+	if e.Replay != "" {
+		replayRun(e, w, st)
+		e.Finish()
+		return
+	}
 	if e.Prop == "C06" {
 		linkTable(e, w, st)
 	}
